@@ -41,6 +41,124 @@ func (f *upFace) MTU() int                     { return defn.MaxNDNPacketSize }
 func (f *upFace) State() defn.State            { return defn.Up }
 func (f *upFace) SendPacket(o dispatch.OutPkt) { f.outs = append(f.outs, o) }
 
+// spliceTLV inserts (or appends, if no element of type `before` exists) the bytes of one element into the value of a packet TLV.
+func spliceTLV(pkt []byte, before byte, elem []byte) []byte {
+	rd := enc.NewBufferReader(pkt)
+	typ, _ := enc.ReadTLNum(rd)
+	if _, err := enc.ReadTLNum(rd); err != nil {
+		return pkt
+	}
+	val := pkt[rd.Pos():]
+	pos, at := 0, len(val)
+	for pos < len(val) {
+		r2 := enc.NewBufferReader(val[pos:])
+		t2, err := enc.ReadTLNum(r2)
+		if err != nil {
+			break
+		}
+		l2, err := enc.ReadTLNum(r2)
+		if err != nil {
+			break
+		}
+		if byte(t2) == before && t2 < 256 {
+			at = pos
+			break
+		}
+		pos += r2.Pos() + int(l2)
+	}
+	nv := append(append(append([]byte{}, val[:at]...), elem...), val[at:]...)
+	res := append([]byte{}, tlnum(uint64(typ))...)
+	res = append(res, tlnum(uint64(len(nv)))...)
+	return append(res, nv...)
+}
+
+type l3variant struct {
+	what string
+	wire []byte
+}
+
+// degenerateInterests: decodable Interests with degenerate optional elements, all for `name`.
+func degenerateInterests(r *rand.Rand, name enc.Name) []l3variant {
+	mk := func(cfg *ndn.InterestConfig, app enc.Wire) []byte {
+		if cfg.Nonce == nil {
+			cfg.Nonce = utils.IdPtr(r.Uint64() >> 32)
+		}
+		i, err := spec.Spec{}.MakeInterest(name, cfg, app, nil)
+		if err != nil {
+			return nil
+		}
+		return i.Wire.Join()
+	}
+	lt := func(ms int) *time.Duration { d := time.Duration(ms) * time.Millisecond; return &d }
+	hl := func(v uint) *uint { return &v }
+	region := enc.Name{enc.NewStringComponent(enc.TypeGenericNameComponent, "region1")}
+	far := func(k int) enc.Name {
+		return enc.Name{enc.NewStringComponent(enc.TypeGenericNameComponent, "far"), enc.NewBytesComponent(enc.TypeGenericNameComponent, []byte{byte(k)})}
+	}
+	plain := mk(&ndn.InterestConfig{Lifetime: lt(4000)}, nil)
+	vs := []l3variant{
+		{"hint-empty", spliceTLV(plain, 0x0a, []byte{0x1e, 0x00})},
+		{"hint-empty-name", spliceTLV(plain, 0x0a, []byte{0x1e, 0x02, 0x07, 0x00})},
+		{"hint-1-far", mk(&ndn.InterestConfig{Lifetime: lt(4000), ForwardingHint: []enc.Name{far(1)}}, nil)},
+		{"hint-2-far", mk(&ndn.InterestConfig{Lifetime: lt(4000), ForwardingHint: []enc.Name{far(1), far(2)}}, nil)},
+		{"hint-3-region-last", mk(&ndn.InterestConfig{Lifetime: lt(4000), ForwardingHint: []enc.Name{far(1), far(2), region}}, nil)},
+		{"hint-1-region", mk(&ndn.InterestConfig{Lifetime: lt(4000), ForwardingHint: []enc.Name{region}}, nil)},
+		{"appparams-empty", mk(&ndn.InterestConfig{Lifetime: lt(4000)}, enc.Wire{[]byte{}})},
+		{"appparams-1", mk(&ndn.InterestConfig{Lifetime: lt(4000)}, enc.Wire{[]byte{0}})},
+		{"hoplimit-0", mk(&ndn.InterestConfig{Lifetime: lt(4000), HopLimit: hl(0)}, nil)},
+		{"hoplimit-1", mk(&ndn.InterestConfig{Lifetime: lt(4000), HopLimit: hl(1)}, nil)},
+		{"hoplimit-255", mk(&ndn.InterestConfig{Lifetime: lt(4000), HopLimit: hl(255)}, nil)},
+		{"lifetime-0", mk(&ndn.InterestConfig{Lifetime: lt(0)}, nil)},
+		{"lifetime-absent", mk(&ndn.InterestConfig{}, nil)},
+		{"lifetime-empty", spliceTLV(mk(&ndn.InterestConfig{}, nil), 0x22, []byte{0x0c, 0x00})},
+		{"cbp", mk(&ndn.InterestConfig{Lifetime: lt(4000), CanBePrefix: true}, nil)},
+		{"mbf", mk(&ndn.InterestConfig{Lifetime: lt(4000), MustBeFresh: true}, nil)},
+		{"cbp-mbf", mk(&ndn.InterestConfig{Lifetime: lt(4000), CanBePrefix: true, MustBeFresh: true}, nil)},
+		{"unknown-noncritical", append(append([]byte{}, plain[:1]...), append(tlnum(uint64(len(plain)-2+4)), append(append([]byte{}, plain[2:]...), 0xfc, 0x02, 1, 2)...)...)},
+	}
+	var res []l3variant
+	for _, v := range vs {
+		if v.wire != nil {
+			res = append(res, v)
+		}
+	}
+	return res
+}
+
+// degenerateData: decodable Data with degenerate optional elements, for `name`.
+func degenerateData(r *rand.Rand, name enc.Name) []l3variant {
+	mk := func(cfg *ndn.DataConfig, content enc.Wire) []byte {
+		d, err := spec.Spec{}.MakeData(name, cfg, content, signer)
+		if err != nil {
+			return nil
+		}
+		return d.Wire.Join()
+	}
+	fr := func(ms int) *time.Duration { d := time.Duration(ms) * time.Millisecond; return &d }
+	fb := enc.NewBytesComponent(enc.TypeGenericNameComponent, []byte{})
+	seg := enc.NewSegmentComponent(0)
+	plain := mk(&ndn.DataConfig{}, enc.Wire{[]byte{1}})
+	vs := []l3variant{
+		{"content-nil", mk(&ndn.DataConfig{ContentType: utils.IdPtr(ndn.ContentTypeBlob)}, nil)},
+		{"content-empty", mk(&ndn.DataConfig{ContentType: utils.IdPtr(ndn.ContentTypeBlob)}, enc.Wire{[]byte{}})},
+		{"no-metainfo", plain},
+		{"metainfo-empty", spliceTLV(plain, 0x15, []byte{0x14, 0x00})},
+		{"freshness-0", mk(&ndn.DataConfig{Freshness: fr(0)}, enc.Wire{[]byte{1}})},
+		{"freshness-1", mk(&ndn.DataConfig{Freshness: fr(1)}, enc.Wire{[]byte{1}})},
+		{"finalblock-empty-comp", mk(&ndn.DataConfig{FinalBlockID: &fb}, enc.Wire{[]byte{1}})},
+		{"finalblock-seg0", mk(&ndn.DataConfig{FinalBlockID: &seg, Freshness: fr(0)}, enc.Wire{[]byte{1}})},
+		{"finalblock-empty-tlv", spliceTLV(plain, 0x15, []byte{0x14, 0x02, 0x1a, 0x00})},
+		{"nack-type", mk(&ndn.DataConfig{ContentType: utils.IdPtr(ndn.ContentTypeNack)}, nil)},
+	}
+	var res []l3variant
+	for _, v := range vs {
+		if v.wire != nil {
+			res = append(res, v)
+		}
+	}
+	return res
+}
+
 func TestThreadConsume(t *testing.T) {
 	out := os.Getenv("VERIF_OUT")
 	if out == "" {
@@ -74,6 +192,7 @@ func TestThreadConsume(t *testing.T) {
 		dispatch.AddFace(77, down)
 		dispatch.AddFace(88, up)
 		table.FibStrategyTable.InsertNextHopEnc(enc.Name{}, 88, 1)
+		table.NetworkRegion.Add(enc.Name{enc.NewStringComponent(enc.TypeGenericNameComponent, "region1")})
 
 		feed := func(what string, l *face.NDNLPLinkService, frame []byte, tokLen int, match bool) bool {
 			res, drained := "ok", 0
@@ -157,6 +276,45 @@ func TestThreadConsume(t *testing.T) {
 					lpd.PitToken = tok
 				}
 				okAll = feed("data", upRx, encodeLp(lpd), tl, match)
+			}
+		}
+		// degenerate-but-decodable optional elements, Interests and Data, matching and not matching a pending Interest
+		for vi := 0; vi < 40 && okAll; vi++ {
+			name := append(randName(r), enc.NewBytesComponent(enc.TypeGenericNameComponent, []byte{0xd0, byte(round), byte(vi)}))
+			ivs := degenerateInterests(r, name)
+			dvs := degenerateData(r, name)
+			iv := ivs[vi%len(ivs)]
+			var itok []byte
+			if vi%3 == 0 {
+				itok = []byte{byte(vi), 1, 2, 3}
+			}
+			lp := &spec.LpPacket{Fragment: enc.Wire{iv.wire}}
+			if itok != nil {
+				lp.PitToken = itok
+			}
+			up.outs = up.outs[:0]
+			if !feed("interest:"+iv.what, down, encodeLp(lp), len(itok), false) {
+				okAll = false
+				break
+			}
+			var own []byte
+			if len(up.outs) > 0 {
+				own = append([]byte{}, up.outs[0].PitToken...)
+			}
+			dv := dvs[(vi/2)%len(dvs)]
+			lpd := &spec.LpPacket{Fragment: enc.Wire{dv.wire}}
+			if len(own) > 0 && vi%4 != 3 {
+				lpd.PitToken = own
+			}
+			if !feed("data:"+dv.what, upRx, encodeLp(lpd), len(lpd.PitToken), true) {
+				okAll = false
+				break
+			}
+			// the same kind of Data for a name nobody asked for, and the same Interest again (now possibly answered from the CS)
+			od := degenerateData(r, append(randName(r), enc.NewBytesComponent(enc.TypeGenericNameComponent, []byte{0xee, byte(vi)})))
+			if !feed("data-unsolicited:"+od[vi%len(od)].what, upRx, encodeLp(&spec.LpPacket{Fragment: enc.Wire{od[vi%len(od)].wire}}), 0, false) ||
+				!feed("interest-again:"+iv.what, down, encodeLp(&spec.LpPacket{Fragment: enc.Wire{iv.wire}}), 0, false) {
+				okAll = false
 			}
 		}
 		for _, th := range fw.Threads {
